@@ -280,6 +280,28 @@ func (in *interp) body(fr *frame, ss []*Stmt) (exit bool, out sig) {
 	return false, sig{}
 }
 
+// more reports whether the loop header's condition `$v CMP bound` holds.
+func (in *interp) more(fr *frame, s *Stmt, def string) bool {
+	bound := s.N
+	if s.BoundVar != "" {
+		bound = in.getInt(fr, s.BoundVar)
+	}
+	cmp := s.Cmp
+	if cmp == "" {
+		cmp = def
+	}
+	v := in.getInt(fr, s.Var)
+	switch cmp {
+	case "<":
+		return v < bound
+	case "<=":
+		return v <= bound
+	case "!=":
+		return v != bound
+	}
+	panic(subset("loop comparison %q", cmp))
+}
+
 func (in *interp) loop(fr *frame, s *Stmt) sig {
 	switch s.Loop {
 	case LFor:
@@ -290,7 +312,7 @@ func (in *interp) loop(fr *frame, s *Stmt) sig {
 				in.set(fr, s.Var, val{k: vInt, i: 1})
 			}
 		}
-		for in.getInt(fr, s.Var) <= s.N {
+		for in.more(fr, s, "<=") {
 			in.tick()
 			if exit, out := in.body(fr, s.Body); exit {
 				return out
@@ -299,7 +321,7 @@ func (in *interp) loop(fr *frame, s *Stmt) sig {
 		}
 	case LWhile:
 		in.set(fr, s.Var, val{k: vInt, i: 0})
-		for in.getInt(fr, s.Var) < s.N {
+		for in.more(fr, s, "<") {
 			in.tick()
 			in.set(fr, s.Var, val{k: vInt, i: in.getInt(fr, s.Var) + 1})
 			if exit, out := in.body(fr, s.Body); exit {
@@ -314,7 +336,7 @@ func (in *interp) loop(fr *frame, s *Stmt) sig {
 			if exit, out := in.body(fr, s.Body); exit {
 				return out
 			}
-			if !(in.getInt(fr, s.Var) < s.N) {
+			if !in.more(fr, s, "<") {
 				break
 			}
 		}
@@ -447,6 +469,8 @@ func (in *interp) eval(fr *frame, e *Expr) val {
 		return val{k: vStr, s: e.S}
 	case EBool:
 		return val{k: vBool, b: e.B}
+	case ENull:
+		return val{}
 	case EVar:
 		return in.get(fr, e.S)
 	case ENot:
@@ -636,8 +660,16 @@ func validateBlock(ss []*Stmt, ctx []string, counters []string, inFunc bool) err
 				return errors.New("do-while needs N >= 1")
 			}
 			cs := append([]string{}, counters...)
-			if s.Loop != LForeach { // a foreach iterates over a snapshot: writing its variables cannot prolong it
+			if s.Loop != LForeach && !s.Free { // a foreach iterates over a snapshot: writing its variables cannot prolong it
 				cs = append(cs, s.Var)
+			}
+			if s.BoundVar != "" {
+				cs = append(cs, s.BoundVar) // the bound never moves
+			}
+			switch s.Cmp {
+			case "", "<", "<=", "!=":
+			default:
+				return fmt.Errorf("loop comparison %q", s.Cmp)
 			}
 			if err := validateBlock(s.Body, append(append([]string{}, ctx...), "loop"), cs, inFunc); err != nil {
 				return err
